@@ -660,6 +660,34 @@ func (g *Gen) zsetOp() *Op {
 	}
 }
 
+// burst returns a short scripted sequence for the families of the profile:
+// duplicates placed out of insertion order in a list followed by counted
+// removals from either end; set / sorted-set algebra where a non-first key has
+// expired but is still stored.
+func (g *Gen) burst() []*Step {
+	var ops []*Op
+	k1, k2 := g.Keys[0], g.Keys[1%len(g.Keys)]
+	x, y := VStr(g.elemP[0]), VStr(g.elemP[1])
+	switch {
+	case g.Prof.Families["list"] > 0 && g.chance(0.5):
+		ops = []*Op{LPushFront(k1, x), LPushBack(k1, x), LPushFront(k1, y), LPushFront(k1, x), LPushBack(k1, y),
+			LDeleteBack(k1, x, 1+g.pick(2)), LRange(k1, 0, -1), LDeleteFront(k1, x, 1), LRange(k1, 0, -1)}
+	case g.Prof.Families["set"] > 0 && g.Prof.Expiry && g.chance(0.6):
+		ops = []*Op{EAdd(k1, VStr("a"), VStr("b"), VStr("c")), EAdd(k2, VStr("b"), VStr("c")), KExpireAt(k2, g.past()),
+			EAlg("diff", k1, k2), EAlg("inter", k1, k2), EAlg("union", k1, k2), EStore("diff", g.key(), k1, k2)}
+	case g.Prof.Families["zset"] > 0 && g.Prof.Expiry:
+		ops = []*Op{ZAdd(k1, VStr("a"), 1), ZAdd(k1, VStr("b"), 2), ZAdd(k2, VStr("b"), 5), KExpireAt(k2, g.past()),
+			ZAlg(false, "sum", k1, k2), ZAlg(true, "sum", k1, k2), ZStore(false, "max", g.key(), k1, k2)}
+	default:
+		return nil
+	}
+	var st []*Step
+	for _, o := range ops {
+		st = append(st, &Step{Ops: []*Op{o}})
+	}
+	return st
+}
+
 func (g *Gen) scanPat() string {
 	if g.chance(0.5) {
 		return "*"
@@ -685,6 +713,11 @@ func (g *Gen) History(id int) *History {
 		}
 		if g.Prof.ExpireProb > 0 && g.chance(g.Prof.ExpireProb) {
 			h.Steps = append(h.Steps, &Step{Ops: []*Op{KExpireAt(g.key(), g.at())}})
+		}
+		if g.chance(0.04) {
+			// bursts that set up situations single random draws rarely reach
+			h.Steps = append(h.Steps, g.burst()...)
+			continue
 		}
 		if g.Prof.Scan && g.chance(0.12) {
 			count := []int{0, 1, 2, 3, 5, -1}[g.pick(6)]
